@@ -1,6 +1,7 @@
 import PQ.Lemmas.Spec
 import PQ.Props.C13
 import PQ.Model.Ops
+import PQ.Lemmas.TickFrame
 /-!
 # C16 — drain and clear always leave an empty, reusable queue
 
@@ -16,9 +17,10 @@ consumption pattern including `mem::forget`).  In the model `drain s = (s.map, e
 * `C16_reusable`: consequently every property theorem that starts from a fresh queue (they all only assume the invariant)
   applies to the emptied queue: stated as "the emptied store satisfies `MaxQ.Inv` and `DQ.Inv`".
 
-Not proved in Lean (carried by the correspondence on every run): that the *ghost counter* does not influence behaviour, i.e.
-the literal equality of later results with those of a fresh queue; the mirror model continues every drained/cleared case with
-random operations and must agree with the implementation on each.
+* `C16_behaves_like_new`: for EVERY later history the emptied queue produces exactly the results of a queue made by `new()`,
+  faults included (there are none), and ends in a state equal to the fresh queue's up to the ghost comparison counter —
+  which is proved to have no influence on behaviour (`Lemmas/TickFrame.lean`: every model function commutes with shifting the
+  counter).
 -/
 namespace PQ
 variable {P : Type} [LT P] [DecidableLT P]
@@ -66,6 +68,16 @@ theorem C16_empty_observations (t : Nat) :
 theorem C16_step_clear (q : Q P) : step q .clear = .ok ({ q with s := Store.fresh q.s.ticks }, .unit) := rfl
 theorem C16_step_drain (q : Q P) : step q .drain = .ok ({ q with s := Store.fresh q.s.ticks }, .entries q.s.map.toList) := rfl
 
+/-- **behaves like a fresh queue**: every later history gives the same results as on `new()` (both after `drain`, however
+the draining iterator was consumed, and after `clear`), and the final states agree on map, heap, qp and size -/
+theorem C16_behaves_like_new (s : Store P) (k : Kind) (ops : List (Op P)) :
+    (∀ q' outs, run { kind := k, s := (s.drain).2 } ops = .ok (q', outs) →
+        ∃ r', run (Q.new k) ops = .ok (r', outs) ∧ TickFrame.QSame q' r') ∧
+    (∀ q' outs, run { kind := k, s := s.clear } ops = .ok (q', outs) →
+        ∃ r', run (Q.new k) ops = .ok (r', outs) ∧ TickFrame.QSame q' r') ∧
+    (∀ e, run { kind := k, s := (s.drain).2 } ops = .error e ↔ run (Q.new k) ops = .error e) :=
+  TickFrame.drained_behaves_like_new s k ops
+
 /-- non-vacuity -/
 example : ((⟨#[(⟨1, 0⟩, (5 : Int)), (⟨2, 0⟩, 7)], #[1, 0], #[1, 0], 2, 3⟩ : Store Int).drain).2 = Store.fresh 3 := rfl
 
@@ -79,3 +91,4 @@ end PQ
 #print axioms PQ.C16_empty_observations
 #print axioms PQ.C16_step_clear
 #print axioms PQ.C16_step_drain
+#print axioms PQ.C16_behaves_like_new
